@@ -461,8 +461,9 @@ theorem generated_capture_ok : ∀ e ∈ Generated.CaptureTable.table, e.ok = tr
 /-- The table has a row for every place of the statement. -/
 theorem generated_capture_complete :
     ["AttrTensor", "AttrTensors", "AttrFloat32s", "AttrInt64s", "AttrStrings", "BaseVars.variadic",
-     "initializer", "arguments(default)", "constant(value)", "constant(value_ints)", "const",
-     "_future.initializer", "_AttrIterable.maybe"].all
+     "initializer", "arguments(default)", "constant(value)", "constant(value_ints)", "const(ndarray)",
+     "const(nested list)", "_future.initializer(ndarray)", "_future.initializer(nested list)",
+     "_AttrIterable.maybe"].all
       (fun s => Generated.CaptureTable.table.any (·.site == s)) = true := by decide
 
 /-- **Captured at the call.** For every constructor of the generated table, every heap, every
